@@ -572,13 +572,14 @@ func (a *align) RefCoordinates(name string, refstart, reflen int) (alistart, ali
 			alistart++
 		} else {
 			alilen++
-			if tmpi >= refstart+reflen-1 {
+			if tmpi-refstart >= reflen-1 {
 				break
 			}
 		}
 	}
 
-	if refstart+reflen > len(seq)-ngaps {
+	// (written so that very large lengths do not overflow)
+	if reflen > len(seq)-ngaps-refstart {
 		err = fmt.Errorf("start + Length (%d + %d) on reference sequence falls outside the sequence", refstart, reflen)
 	}
 
